@@ -24,6 +24,15 @@ func (i *IRCServer) cmdServerNick(s *Session, reply *Replyctx, msg *irc.Message)
 		return
 	}
 
+	if !IsValidNickname(msg.Params[0]) {
+		i.sendServices(reply, &irc.Message{
+			Prefix:  i.ServerPrefix,
+			Command: irc.ERR_ERRONEUSNICKNAME,
+			Params:  []string{"*", msg.Params[0], "Erroneous nickname"},
+		})
+		return
+	}
+
 	if _, ok := i.nicks[NickToLower(msg.Params[0])]; ok {
 		i.sendServices(reply, &irc.Message{
 			Prefix:  i.ServerPrefix,
